@@ -15,6 +15,7 @@ Definition leaf (ty lit : str) (st : lexer) (ln i : N) : res (token * lexer) :=
 Fixpoint interp (t : optree) (st : lexer) (ln i : N) : res (token * lexer) :=
   match t with
   | OLeaf ty lit => leaf ty lit st ln i
+  | OCall _ _ => Err
   | OSpecial _ => Err
   | OPeek cases d =>
     (fix go (cs : list (N * bool * optree)) : res (token * lexer) :=
@@ -29,16 +30,58 @@ Fixpoint interp (t : optree) (st : lexer) (ln i : N) : res (token * lexer) :=
 Fixpoint simple (t : optree) : bool :=
   match t with
   | OLeaf _ _ => true
+  | OCall _ _ => false
   | OSpecial _ => false
   | OPeek cases d =>
     (fix all (cs : list (N * bool * optree)) : bool :=
        match cs with [] => true | (_, _, sub) :: r => simple sub && all r end) cases && simple d
   end.
 
+(* the table interpreter with the two comment readers: fuelled as in Model/Lex.v *)
+Module CallNames.
+  Import Strings.String.
+  Local Open Scope string_scope.
+  Definition N_readEOL := Eval vm_compute in s2r "readEOL".
+  Definition N_readMultiComment := Eval vm_compute in s2r "readMultiComment".
+End CallNames.
+Export CallNames.
+
+Definition call (n : nat) (ty fn : str) (st : lexer) (ln i : N) : res (token * lexer) :=
+  if str_eqb fn N_readEOL then do (l, st1) <- read_eol n st; finish (mkTok ty l ln i) st1
+  else if str_eqb fn N_readMultiComment then do (l, st1) <- read_multi_comment n st; finish (mkTok ty l ln i) st1
+  else Err.
+
+Fixpoint interp_c (n : nat) (t : optree) (st : lexer) (ln i : N) : res (token * lexer) :=
+  match t with
+  | OLeaf ty lit => leaf ty lit st ln i
+  | OCall ty fn => call n ty fn st ln i
+  | OSpecial _ => Err
+  | OPeek cases d =>
+    (fix go (cs : list (N * bool * optree)) : res (token * lexer) :=
+       match cs with
+       | [] => interp_c n d st ln i
+       | (k, reads, sub) :: r =>
+         if peek_char st =? k then interp_c n sub (if reads then read_char st else st) ln i
+         else go r
+       end) cases
+  end.
+
+(* no OSpecial, and only the two known readers *)
+Fixpoint simple_c (t : optree) : bool :=
+  match t with
+  | OLeaf _ _ => true
+  | OCall _ fn => str_eqb fn N_readEOL || str_eqb fn N_readMultiComment
+  | OSpecial _ => false
+  | OPeek cases d =>
+    (fix all (cs : list (N * bool * optree)) : bool :=
+       match cs with [] => true | (_, _, sub) :: r => simple_c sub && all r end) cases && simple_c d
+  end.
+
 (* special actions compare equal whatever the translator calls them *)
 Fixpoint erase (t : optree) : optree :=
   match t with
   | OLeaf ty lit => OLeaf ty lit
+  | OCall ty fn => OCall ty fn
   | OSpecial _ => OSpecial []
   | OPeek cases d =>
     OPeek ((fix m (cs : list (N * bool * optree)) : list (N * bool * optree) :=
@@ -53,6 +96,7 @@ Module OpRef.
   Definition L (ty : str) (s : string) : optree := OLeaf ty (s2r s).     (* a token with an explicit spelling *)
   Definition L1 (ty : str) : optree := OLeaf ty [].                      (* the character itself *)
   Definition SP : optree := OSpecial [].
+  Definition CALL (ty : str) (fn : string) : optree := OCall ty (s2r fn).   (* the literal is read by a loop of reader.go *)
   Definition on (s : string) (t : optree) : N * bool * optree := (chr s, true, t).
   Definition ref_op_table : list (N * optree) := Eval vm_compute in [
     (chr "=", OPeek [on "=" (L T_EQUAL "==")] (L1 T_ASSIGN));
@@ -67,8 +111,8 @@ Module OpRef.
     (chr ";", L1 T_SEMICOLON);
     (chr ".", L1 T_DOT);
     (chr ",", L1 T_COMMA);
-    (chr "/", OPeek [on "=" (L T_DIVISION "/="); (chr "/", false, SP); (chr "*", false, SP)] (L1 T_SLASH));
-    (chr "#", SP);                                            (* comment *)
+    (chr "/", OPeek [on "=" (L T_DIVISION "/="); (chr "/", false, CALL T_COMMENT "readEOL"); (chr "*", false, CALL T_COMMENT "readMultiComment")] (L1 T_SLASH));
+    (chr "#", CALL T_COMMENT "readEOL");                      (* comment *)
     (chr "|", OPeek [on "|" (OPeek [on "=" (L T_LOGICAL_OR "||=")] (L T_OR "||")); on "=" (L T_BITWISE_OR "|=")] (L1 T_ILLEGAL));
     (chr "&", OPeek [on "&" (OPeek [on "=" (L T_LOGICAL_AND "&&=")] (L T_AND "&&")); on "=" (L T_BITWISE_AND "&=")] (L1 T_ILLEGAL));
     (chr "^", OPeek [on "=" (L T_BITWISE_XOR "^=")] (L1 T_ILLEGAL));
